@@ -553,12 +553,13 @@ func (OrderOracle) AfterCycle(r *Run, cycle int, all []Decision) {
 	}
 	// candidates: fully pending and ready workloads
 	byTemplate := map[string][]*RefGroup{}
+	partialOlder := map[string]bool{} // partially running workloads below a minimum: comparable only as the one that goes first
 	for _, gn := range sortedKeys(pre.Groups) {
 		g := pre.Groups[gn]
 		if len(g.Pods) == 0 {
 			continue
 		}
-		ready := true
+		ready, partial := true, false
 		for _, p := range g.Pods {
 			if !p.Pending {
 				ready = false
@@ -570,9 +571,42 @@ func (OrderOracle) AfterCycle(r *Run, cycle int, all []Decision) {
 			}
 		}
 		if !ready {
-			continue
+			// a workload whose pods are all either running or pending, with a pod set below its minimum: it needs its
+			// pending pods at least as urgently as an identical, fully pending workload needs all of its pods. It only
+			// takes the "must go first" role of a pair.
+			ok, pend, below := true, 0, false
+			for _, p := range g.Pods {
+				switch {
+				case p.Pending:
+					pend++
+				case p.Active && !p.Deleting:
+				default:
+					ok = false
+				}
+			}
+			for _, s := range g.Sets {
+				act := 0
+				for _, sp := range s.Pods {
+					if sp.Active && !sp.Deleting {
+						act++
+					}
+				}
+				if act < int(s.Min) {
+					below = true
+				}
+				if len(s.Pods) < int(s.Min) {
+					ok = false
+				}
+			}
+			if !(ok && pend > 0 && below) {
+				continue
+			}
+			partial = true
 		}
 		t := groupTemplate(g)
+		if partial {
+			partialOlder[g.Name] = true
+		}
 		byTemplate[t] = append(byTemplate[t], g)
 	}
 	for _, t := range sortedKeys(byTemplate) {
@@ -581,8 +615,14 @@ func (OrderOracle) AfterCycle(r *Run, cycle int, all []Decision) {
 			for j := 0; j < len(gs); j++ {
 				a, b := gs[i], gs[j] // a should go before b
 				first := a.Priority > b.Priority || (a.Priority == b.Priority && a.Created.Before(b.Created))
-				if !first {
+				if !first || partialOlder[b.Name] {
 					continue
+				}
+				if partialOlder[a.Name] {
+					if a.Priority != b.Priority {
+						continue
+					}
+					r.Probe("c16_comparable_pairs_older_partially_running")
 				}
 				r.Probe("c16_comparable_pairs")
 				if placed[b.Name] && !placed[a.Name] {
